@@ -258,24 +258,31 @@ def eval_cases_in_coq(pid, mod, terms, workdir, tag="cases"):
             f.write("\n].\nEval vm_compute in (mismatches check_case cases).\n")
         jobs.append((k, path))
 
-    def one(job):
+    def one(job, limit="1200"):
         k, path = job
-        rc, out = sh(["timeout", "1200", "coqc", "-Q", COQ, "MV", "-w", "-all", path], cwd=workdir)
+        rc, out = sh(["timeout", limit, "coqc", "-Q", COQ, "MV", "-w", "-all", path], cwd=workdir)
         if rc != 0:
-            return k, None, out[-600:]
+            return k, None, (out[-600:] or f"coqc exit {rc} (time limit {limit}s?) on {os.path.basename(path)}")
         m = re.search(r"=\s*\[(.*?)\]\s*:\s*list nat", out, re.S)
         if not m:
             return k, None, "unparsable coqc output: " + out[-300:]
         idx = [int(x) for x in re.findall(r"\d+", m.group(1))]
         return k, idx, None
 
-    mism, errs = [], []
+    mism, errs, retry = [], [], []
     with cf.ThreadPoolExecutor(max_workers=int(os.environ.get("VERIF_JOBS", "12"))) as ex:
-        for k, idx, err in ex.map(one, jobs):
-            if err:
-                errs.append(err)
+        for job, (k, idx, err) in zip(jobs, ex.map(one, jobs)):
+            if idx is None:
+                retry.append(job)
             else:
                 mism += [k + i for i in idx]
+    # a shard that failed (on a loaded machine: the time limit) is evaluated once more, alone and with a longer limit
+    for job in retry:
+        k, idx, err = one(job, "3600")
+        if idx is None:
+            errs.append(err or "coqc failed")
+        else:
+            mism += [k + i for i in idx]
     return sorted(mism), errs
 
 
